@@ -53,6 +53,13 @@ func NewQueryProof(key, value []byte, auditPath AuditPath, hasher hashing.Hasher
 // false otherwise.
 func (p QueryProof) Verify(key []byte, expectedRootHash hashing.Digest) (valid bool) {
 
+	// a malformed proof (missing or bogus audit path entries) is an invalid proof
+	defer func() {
+		if r := recover(); r != nil {
+			valid = false
+		}
+	}()
+
 	if len(p.AuditPath) == 0 {
 		// an empty audit path (empty tree) shows non-membersip for any key
 		return false
